@@ -3,7 +3,7 @@ import random
 
 from common import MachineryError, seed
 from report import Report
-from alphabets import DEC, TABLES, LEGACY, LEGACY2, IDX
+from alphabets import DEC, TABLES, LEGACY, LEGACY2, IDX, DEC_POOL
 import dec_engine as de
 import gens
 
@@ -109,6 +109,12 @@ def check_C02(tier):
     if not quick:
         for alpha in ("branch", "ring", "frag"):
             gen_replay(rep, "%s8_default6" % alpha, DEC[alpha][:8], "default", 6, fastjit=False)
+    # one more alphabet drawn from a large symbol pool by VERIF_SEED: widens coverage from run to run
+    rng = random.Random(seed() * 1009 + 2)
+    for k in range(1 if quick else 4):
+        alpha = sorted(rng.sample(DEC_POOL, 11)) + ["."]
+        tab = rng.choice(["default", "octet_rule", "hypervalent", "tight", "wide"])
+        gen_replay(rep, "pool%d_%s" % (k, tab), alpha, TABLES[tab], 4, fastjit=quick)
     coverage_run(rep, DEC["frag"] + ["[epsilon]", "[Foo]"], "default", 3)
     trace_random(rep, "C02", quick)
     rep.exhaustive = True
